@@ -75,7 +75,7 @@ func checkCmd(args []string) int {
 		c.Assumptions = []string{"generator bounds of DESIGN.md §5 (no DTD subset, no literal TAB/LF/CR in attribute values, no BOM)", "the predicate 'decoder detects an error' is computed by a bare encoding/xml token loop with the same CharsetReader", "faulted inputs that the decoder does not reject are only monitored for crashes"}
 		c.Components = map[string][]string{"real": realLib, "simulated": {"io.Reader behind ReadXml (delivery schedule, truncation, read errors, corruption)"}}
 		c.RequiredProbes = []string{"truncation-inside-multibyte-sequence", "corruption-detected-by-decoder", "corruption-still-decodable", "read-error", "truncation-after-document-element", "delivery:one-byte", "delivery:cut-inside-tokens", "zero-length-reads"}
-		c.Phases = []simkit.Phase{{Label: "stream-xml", Bin: bin, Engine: "stream-xml", Runs: pick(1500, 60000), MaxSeconds: secs(60, 1500), DetSample: int(pick(24, 256)), Samples: 3}}
+		c.Phases = []simkit.Phase{{Label: "stream-xml", Bin: bin, Engine: "stream-xml", Runs: pick(8000, 400000), MaxSeconds: secs(60, 1500), DetSample: int(pick(24, 256)), Samples: 3}}
 	case "C10":
 		c.Level = "exploration"
 		c.Rule = "one evaluation = one scripted event history (contract-conforming: element start, then namespaces, then attributes, then children, end; surplus end events only where depth is 0) pulled by store.CreateInMemory through the Parser seam and compared with a stack-machine reference model, plus the stack-ceiling child processes (one evaluation each); distinct = distinct event history; non-trivial = history has >= 4 events"
